@@ -38,7 +38,7 @@ theorem validateVote_none {c : Cfg} {v : Vote} (h : validateVote c v = none) :
 
 /-- the message reaches the equivocation check and the store -/
 def Passes (c : Cfg) (m : Msg) : Prop :=
-  m.sigOK = true ∧ m.mset = c.set ∧ m.mround = c.round ∧ m.key < c.n ∧ m.key ≠ c.me ∧
+  m.sigOK = true ∧ m.mset = c.set ∧ m.mround = c.round ∧ m.key ∈ c.voters ∧ m.key ≠ c.me ∧
     validateVote c ⟨m.blk, m.num⟩ = none
 
 /-- the four tallies -/
@@ -61,14 +61,14 @@ theorem vvm_reject {c : Cfg} (s : St) {m : Msg} (h : ¬ Passes c m) :
   · simp [h1, h2, h3, h4, St.tallies]
   by_cases h5 : c.round < m.mround
   · simp [h1, h2, h3, h4, h5, St.tallies]
-  by_cases h6 : c.n ≤ m.key
+  by_cases h6 : m.key ∉ c.voters
   · simp [h1, h2, h3, h4, h5, h6, St.tallies]
   by_cases h7 : m.key = c.me
   · simp [h1, h2, h3, h4, h5, h6, if_pos h7, St.tallies]
   simp only [h1, h2, h3, h4, h5, h6, h7, Bool.not_true, Bool.false_eq_true, if_false, ne_eq,
     not_true_eq_false]
   cases hv : validateVote c ⟨m.blk, m.num⟩ with
-  | none => exact absurd ⟨h1, h2, by omega, by omega, h7, hv⟩ h
+  | none => exact absurd ⟨h1, h2, by omega, Classical.not_not.1 h6, h7, hv⟩ h
   | some e => cases e <;> simp [St.tallies]
 
 /-- what the prevote and precommit tallies can become: unchanged, the sender's entry set to the (validated)
@@ -91,7 +91,7 @@ theorem vvm_votes {c : Cfg} (s : St) (m : Msg) :
   have g3 : ¬ (m.mround < c.round - 1 ∨ c.round + 1 < m.mround) := by omega
   have g4 : ¬ m.mround < c.round := by omega
   have g5 : ¬ c.round < m.mround := by omega
-  have g6 : ¬ c.n ≤ m.key := by omega
+  have g6 : ¬ m.key ∉ c.voters := fun hn => hn h4
   simp only [h1, h2, g3, g4, g5, g6, h5, hv, Bool.not_true, Bool.false_eq_true, if_false, ne_eq,
     not_true_eq_false]
   by_cases hs : isPvStage m.stage = true
